@@ -87,8 +87,8 @@ class StoreStream(Stream):
             res, _, listing = seg.partition(' ')
             kind = o[0]
             before = dict(m)
-            if kind == 'add':
-                if o[3]:
+            if kind in ('add', 'readd'):
+                if kind == 'add' and o[3]:
                     want = 'rejected'
                 elif o[1] in m:
                     want = 'exists'
@@ -195,7 +195,7 @@ class ObservableStream(Stream):
     def oracle(self, c, obs):
         for o, seg in zip(c['ops'], obs.split(' | ')):
             res, n, _ = seg.split(' ', 2)
-            mut = o[0] in ('add', 'update', 'delete')
+            mut = o[0] in ('add', 'readd', 'update', 'delete')
             want = 1 if (mut and res == 'ok') else 0
             if n != 'n=%d' % want:
                 return '%r (%s) notified %s times, expected %d' % (o, res, n[2:], want)
